@@ -892,6 +892,56 @@ func permutationsV3(r *ev.Run, G *gprops, gs *gstats, decoders []int, thorough b
 		}
 	}
 	recSel(nil, 0)
+	// complete 22-metric vectors (four backgrounds, both version labels) in unusual arrangements:
+	// reversed, every rotation, every single token moved to every position, every transposition
+	// of two tokens, the three groups dealt round-robin, optional metrics first
+	if inInts(decoders, 2) {
+		for bi, bg := range reportBackgrounds() {
+			toks := tokensOf(3, 2, bg.tok)
+			label := "CVSS:" + spec.V3Versions[bi%2] + "/"
+			addArr := func(p []string) { strs = append(strs, label+strings.Join(p, "/")) }
+			n := len(toks)
+			rev := make([]string, n)
+			for i := range toks {
+				rev[n-1-i] = toks[i]
+			}
+			addArr(rev)
+			for k := 1; k < n; k++ {
+				addArr(append(append([]string{}, toks[k:]...), toks[:k]...))
+				addArr(append(append([]string{}, rev[k:]...), rev[:k]...))
+			}
+			for i := 0; i < n; i++ {
+				rest := append(append([]string{}, toks[:i]...), toks[i+1:]...)
+				for j := 0; j < n; j++ {
+					if j == i {
+						continue
+					}
+					addArr(append(append(append([]string{}, rest[:j]...), toks[i]), rest[j:]...))
+				}
+				for j := i + 1; j < n; j++ {
+					sw := append([]string{}, toks...)
+					sw[i], sw[j] = sw[j], sw[i]
+					addArr(sw)
+				}
+			}
+			var deal []string
+			b, t, e := toks[:8], toks[8:11], toks[11:]
+			for i := 0; i < 11; i++ {
+				if i < len(e) {
+					deal = append(deal, e[i])
+				}
+				if i < len(t) {
+					deal = append(deal, t[i])
+				}
+				if i < len(b) {
+					deal = append(deal, b[i])
+				}
+			}
+			addArr(deal)
+			addArr(append(append(append([]string{}, e...), t...), b...))
+			addArr(append(append(append([]string{}, t...), b...), e...))
+		}
+	}
 	safeParallel(r, 64, func(sh int) {
 		for i := sh; i < len(strs); i += 64 {
 			for _, d := range decoders {
